@@ -9,6 +9,11 @@ Streams
              runs (part of the options in the file, overriding values in --config),
              plus a re-run from another working directory with a relative project path.
   bad      : one unknown key or one ill-typed value added to an option set, per format.
+  layout   : (round 6) where the options are taken from: a project file with a metadata block or its own manifest,
+             manifests of other packages and text files for the `{!file!}` include workaround lying in the other
+             directories, FORD started from 4-5 working directories with absolute / relative / redundant spellings
+             of the project path; compared with `c15.effl` (dirname, regenerated lookup table, manifest states,
+             include step); oracles O3, O6 (incl. the included text, looked up from the project file), O2.
 
 For every run of the real `ford.initialize()` the Lean model (`c15.eff`) is run on the same
 inputs and the canonical observations are compared (correspondence).  The property oracle
